@@ -19,6 +19,8 @@ const PLACEMENTS = {
   'arrow-param': (R) => `const f = (act, ${R}) => {\n  const v = $.p(act, 1) + $.p(act, 2);\n  $.u('done', 1);\n  return v;\n};`,
   'arrow-expression-param': (R) => `const f = (act, ${R}) => $.p(act, 1) + $.p(act, 2);`,
   'delete-operand': (R) => `let ${R} = { x: 'U1' };\nfunction f(act) {\n  const v = $.p(act, 1) + $.p(act, 2);\n  delete ${R}.x;\n  const w = $.p(act, 3) + $.p(act, 4);\n  return v + w;\n}\nconst rd = () => ${R}.x;\nconst after = () => $.u('outer', rd());`,
+  'concise-arrow-reads-outer': (R) => `let ${R} = 'U1';\nfunction f(act) {\n  const peek = () => ${R};\n  const v = $.p(act, 1) + $.p(act, 2);\n  $.u('peek', peek());\n  return v;\n}`,
+  'concise-arrow-writes-outer': (R) => `let ${R} = 'U1';\nconst rd = () => ${R};\nfunction f(act) {\n  const poke = (x) => (${R} = x);\n  const v = $.p(act, 1) + $.u('poke', poke('U2')) + $.p(act, 2);\n  return v;\n}\nconst after = () => $.u('outer', rd());`,
   'property-name': (R) => `function f(act) {\n  const o = { ${R}: 'U1' };\n  const v = $.p(act, 1) + $.p(act, 2);\n  $.u('prop', o.${R});\n  return v;\n}`,
   'function-name-in-block': (R) => `function f(act) {\n  function ${R}() { return 'U1'; }\n  const v = $.p(act, 1) + $.p(act, 2);\n  $.u('call', typeof ${R} === 'function' ? ${R}() : ${R});\n  return v;\n}`,
   'class-name-in-block': (R) => `function f(act) {\n  class ${R} { static s() { return 'U1'; } }\n  const v = $.p(act, 1) + $.p(act, 2);\n  $.u('call', ${R}.s());\n  return v;\n}`,
@@ -47,7 +49,10 @@ function planH5 (rng, prefix) {
   const strict = rng.chance(1, 2)
   const body = PLACEMENTS[placement](R)
   const text = `${strict ? "'use strict';\n" : ''}${body}\nmodule.exports = { f, after: typeof after === 'function' ? after : null };\n`
-  return { mode: 'h5', placement, R, strict, text }
+  // an earlier rewrite of the same process used another prefix (history: the refusal must not
+  // depend on which configuration was used first)
+  const preJob = rng.chance(1, 2)
+  return { mode: 'h5', placement, R, strict, text, preJob }
 }
 
 function runOnce (code, file) {
